@@ -40,7 +40,8 @@
 (***************************************************************************)
 EXTENDS Integers, Sequences, FiniteSets
 
-CONSTANTS MaxPrev,      \* largest |previous| explored
+CONSTANTS MaxFailed,    \* how many failed encodings of unrelated values are interleaved
+          MaxPrev,      \* largest |previous| explored
           MaxDecodes,   \* how often the same bytes are decoded
           Canonical     \* BOOLEAN, see above
 
@@ -182,32 +183,43 @@ VARIABLES pc,     \* "built" | "signed" | "encoded" | "twinned" | "done"
           h,      \* the original instance
           wire,   \* Enc(h) after signing
           dec,    \* sequence of decode results
-          twin    \* the second instance (meaningful from pc = "twinned")
+          twin,   \* the second instance (meaningful from pc = "twinned")
+          fe      \* failed encodings so far (see FailedEncode)
 
-vars == <<pc, h, wire, dec, twin>>
+vars == <<pc, h, wire, dec, twin, fe>>
 
 Init ==
     /\ pc = "built"
     /\ \E v \in Shapes : h = Inst(v, FALSE, <<>>, Identity(v.ext.n))
     /\ wire = <<>> /\ dec = <<>>
     /\ twin = h
+    /\ fe = 0
+
+\* `encode_cbor` (p2panda-core/src/cbor.rs) of some unrelated value FAILS half-way (a Serialize impl
+\* that returns an error after it has written some items), at any time, on the same thread.
+\* Encoding is a function of the value alone - there is no encoder state - so this step changes
+\* nothing that any later step observes.
+FailedEncode ==
+    /\ fe < MaxFailed /\ pc # "done"
+    /\ fe' = fe + 1
+    /\ UNCHANGED <<pc, h, wire, dec, twin>>
 
 Sign ==
     /\ pc = "built"
     /\ h' = Signed(h)
     /\ pc' = "signed"
-    /\ UNCHANGED <<wire, dec, twin>>
+    /\ UNCHANGED <<wire, dec, twin, fe>>
 
 Encode ==
     /\ pc = "signed"
     /\ wire' = Enc(h)
     /\ pc' = "encoded"
-    /\ UNCHANGED <<h, dec, twin>>
+    /\ UNCHANGED <<h, dec, twin, fe>>
 
 DecodeWith(o) ==
     /\ pc = "encoded" /\ Len(dec) < MaxDecodes
     /\ dec' = Append(dec, Decoded(ExtType(h.v.ext.kind), wire, o))
-    /\ UNCHANGED <<pc, h, wire, twin>>
+    /\ UNCHANGED <<pc, h, wire, twin, fe>>
 
 Decode == \E o \in Perms(h.v.ext.n) : DecodeWith(o)
 
@@ -215,18 +227,18 @@ BuildTwinWith(o) ==
     /\ pc = "encoded"
     /\ twin' = Signed(Inst(h.v, FALSE, <<>>, o))
     /\ pc' = "twinned"
-    /\ UNCHANGED <<h, wire, dec>>
+    /\ UNCHANGED <<h, wire, dec, fe>>
 
 BuildTwin == \E o \in Perms(h.v.ext.n) : BuildTwinWith(o)
 
 Finish ==
     /\ pc = "twinned"
     /\ pc' = "done"
-    /\ UNCHANGED <<h, wire, dec, twin>>
+    /\ UNCHANGED <<h, wire, dec, twin, fe>>
 
 Terminated == pc = "done" /\ UNCHANGED vars
 
-Next == Sign \/ Encode \/ Decode \/ BuildTwin \/ Finish \/ Terminated
+Next == Sign \/ Encode \/ Decode \/ BuildTwin \/ Finish \/ FailedEncode \/ Terminated
 Spec == Init /\ [][Next]_vars
 
 ---------------------------------------------------------------------------
